@@ -12,8 +12,9 @@ import driver
 import gendefs
 
 LEAN_MODULE = "Kio.Props.C16"
-THEOREMS = ["Kio.C16.fields", "Kio.C16.class_vars", "Kio.C16.classes", "Kio.C16.coherent",
-            "Kio.C16.nullability_partial", "Kio.C16.primarr_nullable_witness", "Kio.C16.version_range"]
+THEOREMS = ["Kio.C16.fields", "Kio.C16.class_vars", "Kio.C16.classes", "Kio.C16.header_rule",
+            "Kio.C16.nullability_partial", "Kio.C16.primarr_nullable_witness", "Kio.C16.version_range",
+            "Kio.C16.pinned_agree"]
 EXTRA_TRUSTED = ["the text-emission and pydantic layers of codegen are modelled at descriptor level only; "
                  "`Supported` is my delimitation of the supported subset"]
 
